@@ -227,6 +227,17 @@ def unit_shape(a):
     return stats
 
 
+def unit_wide(a):
+    stats = Stats()
+    cases = []
+    for w in a["widths"]:
+        for counts in ([w, w], [w, w, w], [w, w - 1], [w - 1, w, w], [w, w, w + 1]):
+            for where in ("data", "examples"):
+                cases.append({"sub": "shape", "counts": counts, "where": where, "indents": [3] * len(counts), "escapes": False, "follow": "step" if where == "data" else ""})
+    sweep(stats, cases, check_shape)
+    return stats
+
+
 def replay(case, stats):
     return {"row": check_row, "roundtrip": check_roundtrip, "shape": check_shape}[case["sub"]](case, stats)
 
@@ -242,6 +253,7 @@ def run(ctx):
               [{"n": 2250 if q else 20000, "seed": ctx.seed, "shard": i} for i in range(8 if q else 16)], procs=16)
     ctx.units("roundtrip", unit_roundtrip,
               [{"n": 900 if q else 8000, "seed": ctx.seed, "shard": i} for i in range(8 if q else 16)], procs=16)
+    ctx.units("table-shape-wide", unit_wide, [{"widths": [9, 10, 11, 31, 32, 33, 64, 100, 127, 128, 129, 255, 256, 257, 258, 300, 1000] + ([] if q else [4096, 65537])}])
     ctx.units("table-shape", unit_shape,
               [{"n": 750 if q else 6000, "seed": ctx.seed, "shard": i} for i in range(8 if q else 16)], procs=16)
     ctx.exhaustive = False
